@@ -1,1 +1,396 @@
-/-! Property theorems for C16 (statements + proofs by reference to `Proof/`). Not built yet. -/
+import GraafVerif.Proof.Conv
+import GraafVerif.Proof.ConvFrom
+import GraafVerif.Proof.ConvInj
+import GraafVerif.Model.ConvChain
+/-!
+# C16 — conversions between representations preserve the digraph
+
+Only statements and proofs by reference.  Model: `Model/Conv.lean` (the macro-generated `From`
+impls and the `From<rows>` / `From<arcs>` impls as coded, tied to the code by the
+correspondence run).  `none` = the Rust code panics.
+-/
+namespace GraafVerif.C16
+open GraafVerif.Repr GraafVerif.Conv GraafVerif.Gen
+
+/-- same order, same arc set -/
+def Same (o₁ : Nat) (a₁ : List (Nat × Nat)) (o₂ : Nat) (a₂ : List (Nat × Nat)) : Prop :=
+  o₂ = o₁ ∧ ∀ u v, (u, v) ∈ a₂ ↔ (u, v) ∈ a₁
+
+/-- A valid digraph with vertex set `0..order`, per representation (for the map contiguity is a
+hypothesis; the others have it by construction). -/
+def OkAL (d : AdjList) : Prop := d.WF
+/-- `order * order` fits a `usize` (else `AdjacencyMatrix::empty` panics; a real matrix always
+satisfies it, so it is part of the matrix's validity) -/
+def Fits (n : Nat) : Prop := n * n < 2 ^ 64
+def OkAM (d : AdjMap) : Prop := d.WF ∧ Gen.AM.Contiguous d ∧ 1 ≤ d.order
+def OkMX (d : AdjMatrix) : Prop := d.WF ∧ d.order * d.order < 2 ^ 64
+def OkEL (d : EdgeList) : Prop := d.WF
+/-- … and for the weighted list: valid with every weight 1 -/
+def OkWL1 (d : AdjListW) : Prop := d.WF ∧ Gen.WL.AllOne d
+
+/-- The conversion result `r` is a valid digraph with the order `o` and the arc set `a` of the source. -/
+def GoodAL (o : Nat) (a : List (Nat × Nat)) (r : Option AdjList) : Prop :=
+  ∃ t, r = some t ∧ OkAL t ∧ Same o a t.order t.arcs
+def GoodAM (o : Nat) (a : List (Nat × Nat)) (r : Option AdjMap) : Prop :=
+  ∃ t, r = some t ∧ OkAM t ∧ Same o a t.order t.arcs
+def GoodMX (o : Nat) (a : List (Nat × Nat)) (r : Option AdjMatrix) : Prop :=
+  ∃ t, r = some t ∧ OkMX t ∧ Same o a t.order t.arcs
+def GoodEL (o : Nat) (a : List (Nat × Nat)) (r : Option EdgeList) : Prop :=
+  ∃ t, r = some t ∧ OkEL t ∧ Same o a t.order t.arcs
+/-- … and additionally every arc has weight 1 -/
+def GoodWL (o : Nat) (a : List (Nat × Nat)) (r : Option AdjListW) : Prop :=
+  ∃ t, r = some t ∧ OkWL1 t ∧ Same o a t.order t.arcs
+
+/-- **Full statement of C16.** -/
+def Statement : Prop :=
+  -- (a) the 12 + 4(×2 weight types) `From<other representation>` impls preserve order and arcs
+  (∀ d : AdjList, OkAL d → GoodAM d.order d.arcs (alToAM d) ∧ (Fits d.order → GoodMX d.order d.arcs (alToMX d)) ∧
+    GoodEL d.order d.arcs (alToEL d) ∧ GoodWL d.order d.arcs (alToWL d)) ∧
+  (∀ d : AdjMap, OkAM d → GoodAL d.order d.arcs (amToAL d) ∧ (Fits d.order → GoodMX d.order d.arcs (amToMX d)) ∧
+    GoodEL d.order d.arcs (amToEL d) ∧ GoodWL d.order d.arcs (amToWL d)) ∧
+  (∀ d : AdjMatrix, OkMX d → GoodAL d.order d.arcs (mxToAL d) ∧ GoodAM d.order d.arcs (mxToAM d) ∧
+    GoodEL d.order d.arcs (mxToEL d) ∧ GoodWL d.order d.arcs (mxToWL d)) ∧
+  (∀ d : EdgeList, OkEL d → GoodAL d.order d.arcs (elToAL d) ∧ GoodAM d.order d.arcs (elToAM d) ∧
+    (Fits d.order → GoodMX d.order d.arcs (elToMX d)) ∧ GoodWL d.order d.arcs (elToWL d)) ∧
+  -- (b) every round trip is the identity (on the structure, not only on the abstract digraph)
+  (∀ d : AdjList, OkAL d →
+    (∀ t, alToAM d = some t → amToAL t = some d) ∧ (∀ t, alToMX d = some t → mxToAL t = some d) ∧
+    (∀ t, alToEL d = some t → elToAL t = some d)) ∧
+  (∀ d : AdjMap, OkAM d →
+    (∀ t, amToAL d = some t → alToAM t = some d) ∧ (∀ t, amToMX d = some t → mxToAM t = some d) ∧
+    (∀ t, amToEL d = some t → elToAM t = some d)) ∧
+  (∀ d : AdjMatrix, OkMX d →
+    (∀ t, mxToAL d = some t → alToMX t = some d) ∧ (∀ t, mxToAM d = some t → amToMX t = some d) ∧
+    (∀ t, mxToEL d = some t → elToMX t = some d)) ∧
+  (∀ d : EdgeList, OkEL d →
+    (∀ t, elToAL d = some t → alToEL t = some d) ∧ (∀ t, elToAM d = some t → amToEL t = some d) ∧
+    (∀ t, elToMX d = some t → mxToEL t = some d)) ∧
+  -- (c) rows of out-neighbour sets / weight maps: exactly those rows, or a panic
+  (∀ rows, (RowsValid rows → Conv.AL.fromRows rows = some ⟨rows⟩ ∧ ((∀ r ∈ rows, SortedS r) → OkAL ⟨rows⟩)) ∧
+           (¬ RowsValid rows → Conv.AL.fromRows rows = none)) ∧
+  (∀ rows, (RowsValid rows → Conv.AM.fromRows rows = some ⟨enumRows rows⟩ ∧
+              ((∀ r ∈ rows, SortedS r) → OkAM ⟨enumRows rows⟩)) ∧
+           (¬ RowsValid rows → Conv.AM.fromRows rows = none)) ∧
+  (∀ rows, (RowsValidW rows → Conv.WL.fromRows rows = some ⟨rows⟩ ∧ ((∀ r ∈ rows, SortedK r) → AdjListW.WF ⟨rows⟩)) ∧
+           (¬ RowsValidW rows → Conv.WL.fromRows rows = none)) ∧
+  -- (d) iterator of arcs: order = largest id + 1 and exactly those arcs; self-loop ⇒ panic;
+  --     no arc ⇒ the matrix panics, the edge list has order 1
+  (∀ arcs, (arcs ≠ [] → (∀ a ∈ arcs, a.1 ≠ a.2) → Fits (maxId arcs + 1) →
+              ∃ d, Conv.MX.fromArcs arcs = some d ∧ OkMX d ∧ Same (maxId arcs + 1) arcs d.order d.arcs) ∧
+           ((∀ a ∈ arcs, a.1 ≠ a.2) →
+              ∃ d, Conv.EL.fromArcs arcs = some d ∧ OkEL d ∧ Same (maxId arcs + 1) arcs d.order d.arcs) ∧
+           ((∃ a ∈ arcs, a.1 = a.2) → Conv.MX.fromArcs arcs = none ∧ Conv.EL.fromArcs arcs = none) ∧
+           (arcs ≠ [] → ∃ a ∈ arcs, a.1 = maxId arcs ∨ a.2 = maxId arcs)) ∧
+  Conv.MX.fromArcs [] = none
+
+/-! ## (a) conversions -/
+
+private theorem same_of {o : Nat} {arcs a : List (Nat × Nat)} {o' : Nat}
+    (h1 : o' = o) (h2 : ∀ u v, (u, v) ∈ a ↔ (u, v) ∈ arcs) : Same o arcs o' a := ⟨h1, h2⟩
+
+/-- All conversions out of a valid source `s` (generic in the source). -/
+theorem converts_src (s : Src) :
+    GoodAL s.order s.arcs (toAL s.order s.arcs) ∧ GoodAM s.order s.arcs (toAM s.order s.arcs) ∧
+    (Fits s.order → GoodMX s.order s.arcs (toMX s.order s.arcs)) ∧
+    GoodEL s.order s.arcs (toEL s.order s.arcs) ∧ GoodWL s.order s.arcs (toWL s.order s.arcs) := by
+  refine ⟨?_, ?_, ?_, ?_, ?_⟩
+  · obtain ⟨t, h, hw, ho, ha⟩ := toAL_spec s; exact ⟨t, h, hw, same_of ho ha⟩
+  · obtain ⟨t, h, hw, ho, ha⟩ := toAM_spec s
+    exact ⟨t, h, ⟨hw.1, hw.2, by rw [ho]; exact s.pos⟩, same_of ho ha⟩
+  · intro hf; obtain ⟨t, h, hw, ho, ha⟩ := toMX_spec s hf
+    exact ⟨t, h, ⟨hw, by rw [ho]; exact hf⟩, same_of ho ha⟩
+  · obtain ⟨t, h, hw, ho, ha⟩ := toEL_spec s; exact ⟨t, h, hw, same_of ho ha⟩
+  · obtain ⟨t, h, hw, ho, ha⟩ := toWL_spec s; exact ⟨t, h, hw, same_of ho ha⟩
+
+theorem converts_from_al (d : AdjList) (h : OkAL d) :
+    GoodAM d.order d.arcs (alToAM d) ∧ (Fits d.order → GoodMX d.order d.arcs (alToMX d)) ∧
+    GoodEL d.order d.arcs (alToEL d) ∧ GoodWL d.order d.arcs (alToWL d) :=
+  (converts_src (srcAL d h)).2
+
+theorem converts_from_am (d : AdjMap) (h : OkAM d) :
+    GoodAL d.order d.arcs (amToAL d) ∧ (Fits d.order → GoodMX d.order d.arcs (amToMX d)) ∧
+    GoodEL d.order d.arcs (amToEL d) ∧ GoodWL d.order d.arcs (amToWL d) :=
+  have c := converts_src (srcAM d h.1 h.2.1 h.2.2)
+  ⟨c.1, c.2.2⟩
+
+theorem converts_from_mx (d : AdjMatrix) (h : OkMX d) :
+    GoodAL d.order d.arcs (mxToAL d) ∧ GoodAM d.order d.arcs (mxToAM d) ∧
+    GoodEL d.order d.arcs (mxToEL d) ∧ GoodWL d.order d.arcs (mxToWL d) :=
+  have c := converts_src (srcMX d h.1)
+  ⟨c.1, c.2.1, c.2.2.2⟩
+
+theorem converts_from_el (d : EdgeList) (h : OkEL d) :
+    GoodAL d.order d.arcs (elToAL d) ∧ GoodAM d.order d.arcs (elToAM d) ∧
+    (Fits d.order → GoodMX d.order d.arcs (elToMX d)) ∧ GoodWL d.order d.arcs (elToWL d) :=
+  have c := converts_src (srcEL d h)
+  ⟨c.1, c.2.1, c.2.2.1, c.2.2.2.2⟩
+
+/-- An invalid source (a self-loop or a head `≥ order` among its arcs, or order 0) makes every
+`From<digraph>` impl panic — no invalid digraph is produced. -/
+theorem conversion_panics_on_invalid {T : Type} (empty : Nat → Option T) (addArc : T → Nat → Nat → Option T)
+    (o : Nat) (arcs : List (Nat × Nat)) (h : o = 0 ∨ ∃ a ∈ arcs, a.1 = a.2 ∨ ¬ a.2 < o) :
+    fromDigraph empty addArc o arcs = none := by
+  rcases h with rfl | h
+  · exact fromDigraph_zero empty addArc arcs
+  · exact fromDigraph_panics empty addArc o arcs h
+
+/-! ## (b) round trips -/
+
+/-- if the conversion into the matrix succeeded, the order fits -/
+theorem fits_of_toMX {o : Nat} {arcs : List (Nat × Nat)} {t : AdjMatrix}
+    (ht : toMX o arcs = some t) : o * o < 2 ^ 64 := by
+  unfold toMX fromDigraph at ht
+  by_cases h0 : o = 0
+  · simp [h0] at ht
+  · by_cases hf : o * o ≥ 2 ^ 64
+    · simp [h0, AdjMatrix.empty, hf] at ht
+    · omega
+
+
+theorem roundtrip_al (d : AdjList) (h : OkAL d) :
+    (∀ t, alToAM d = some t → amToAL t = some d) ∧ (∀ t, alToMX d = some t → mxToAL t = some d) ∧
+    (∀ t, alToEL d = some t → elToAL t = some d) := by
+  refine ⟨?_, ?_, ?_⟩
+  · intro t ht
+    obtain ⟨t', ht', hw, ho, ha⟩ := toAM_spec (srcAL d h)
+    have : t = t' := Option.some.inj (ht.symm.trans ht'); subst this
+    obtain ⟨b, hb, hbw, hbo, hba⟩ := toAL_spec (srcAM t hw.1 hw.2 (by rw [ho]; exact h.1))
+    have : b = d := roundtrip_AL h hbw ⟨ho, ha⟩ ⟨hbo, hba⟩
+    rw [← this]; exact hb
+  · intro t ht
+    have hwt : t.WF ∧ t.order = d.order ∧ ∀ u v, (u, v) ∈ t.arcs ↔ (u, v) ∈ d.arcs := by
+      obtain ⟨t', ht', hw, ho, ha⟩ := toMX_spec (srcAL d h) (fits_of_toMX ht)
+      have : t = t' := Option.some.inj (ht.symm.trans ht'); subst this
+      exact ⟨hw, ho, ha⟩
+    obtain ⟨b, hb, hbw, hbo, hba⟩ := toAL_spec (srcMX t hwt.1)
+    have : b = d := roundtrip_AL h hbw ⟨hwt.2.1, hwt.2.2⟩ ⟨hbo, hba⟩
+    rw [← this]; exact hb
+  · intro t ht
+    obtain ⟨t', ht', hw, ho, ha⟩ := toEL_spec (srcAL d h)
+    have : t = t' := Option.some.inj (ht.symm.trans ht'); subst this
+    obtain ⟨b, hb, hbw, hbo, hba⟩ := toAL_spec (srcEL t hw)
+    have : b = d := roundtrip_AL h hbw ⟨ho, ha⟩ ⟨hbo, hba⟩
+    rw [← this]; exact hb
+
+theorem roundtrip_am (d : AdjMap) (h : OkAM d) :
+    (∀ t, amToAL d = some t → alToAM t = some d) ∧ (∀ t, amToMX d = some t → mxToAM t = some d) ∧
+    (∀ t, amToEL d = some t → elToAM t = some d) := by
+  have s := srcAM d h.1 h.2.1 h.2.2
+  refine ⟨?_, ?_, ?_⟩
+  · intro t ht
+    obtain ⟨t', ht', hw, ho, ha⟩ := toAL_spec (srcAM d h.1 h.2.1 h.2.2)
+    have : t = t' := Option.some.inj (ht.symm.trans ht'); subst this
+    obtain ⟨b, hb, hbw, hbo, hba⟩ := toAM_spec (srcAL t hw)
+    have : b = d := roundtrip_AM h.1 h.2.1 hbw.1 hbw.2 ⟨ho, ha⟩ ⟨hbo, hba⟩
+    rw [← this]; exact hb
+  · intro t ht
+    obtain ⟨t', ht', hw, ho, ha⟩ := toMX_spec (srcAM d h.1 h.2.1 h.2.2) (fits_of_toMX ht)
+    have : t = t' := Option.some.inj (ht.symm.trans ht'); subst this
+    obtain ⟨b, hb, hbw, hbo, hba⟩ := toAM_spec (srcMX t hw)
+    have : b = d := roundtrip_AM h.1 h.2.1 hbw.1 hbw.2 ⟨ho, ha⟩ ⟨hbo, hba⟩
+    rw [← this]; exact hb
+  · intro t ht
+    obtain ⟨t', ht', hw, ho, ha⟩ := toEL_spec (srcAM d h.1 h.2.1 h.2.2)
+    have : t = t' := Option.some.inj (ht.symm.trans ht'); subst this
+    obtain ⟨b, hb, hbw, hbo, hba⟩ := toAM_spec (srcEL t hw)
+    have : b = d := roundtrip_AM h.1 h.2.1 hbw.1 hbw.2 ⟨ho, ha⟩ ⟨hbo, hba⟩
+    rw [← this]; exact hb
+
+theorem roundtrip_mx (d : AdjMatrix) (h : OkMX d) :
+    (∀ t, mxToAL d = some t → alToMX t = some d) ∧ (∀ t, mxToAM d = some t → amToMX t = some d) ∧
+    (∀ t, mxToEL d = some t → elToMX t = some d) := by
+  refine ⟨?_, ?_, ?_⟩
+  · intro t ht
+    obtain ⟨t', ht', hw, ho, ha⟩ := toAL_spec (srcMX d h.1)
+    have : t = t' := Option.some.inj (ht.symm.trans ht'); subst this
+    have hf : t.order * t.order < 2 ^ 64 := by rw [ho]; exact h.2
+    obtain ⟨b, hb, hbw, hbo, hba⟩ := toMX_spec (srcAL t hw) hf
+    have : b = d := roundtrip_MX h.1 hbw ⟨ho, ha⟩ ⟨hbo, hba⟩
+    rw [← this]; exact hb
+  · intro t ht
+    obtain ⟨t', ht', hw, ho, ha⟩ := toAM_spec (srcMX d h.1)
+    have : t = t' := Option.some.inj (ht.symm.trans ht'); subst this
+    have hf : t.order * t.order < 2 ^ 64 := by rw [ho]; exact h.2
+    obtain ⟨b, hb, hbw, hbo, hba⟩ := toMX_spec (srcAM t hw.1 hw.2 (by rw [ho]; exact h.1.1)) hf
+    have : b = d := roundtrip_MX h.1 hbw ⟨ho, ha⟩ ⟨hbo, hba⟩
+    rw [← this]; exact hb
+  · intro t ht
+    obtain ⟨t', ht', hw, ho, ha⟩ := toEL_spec (srcMX d h.1)
+    have : t = t' := Option.some.inj (ht.symm.trans ht'); subst this
+    have hf : t.order * t.order < 2 ^ 64 := by rw [ho]; exact h.2
+    obtain ⟨b, hb, hbw, hbo, hba⟩ := toMX_spec (srcEL t hw) hf
+    have : b = d := roundtrip_MX h.1 hbw ⟨ho, ha⟩ ⟨hbo, hba⟩
+    rw [← this]; exact hb
+
+theorem roundtrip_el (d : EdgeList) (h : OkEL d) :
+    (∀ t, elToAL d = some t → alToEL t = some d) ∧ (∀ t, elToAM d = some t → amToEL t = some d) ∧
+    (∀ t, elToMX d = some t → mxToEL t = some d) := by
+  refine ⟨?_, ?_, ?_⟩
+  · intro t ht
+    obtain ⟨t', ht', hw, ho, ha⟩ := toAL_spec (srcEL d h)
+    have : t = t' := Option.some.inj (ht.symm.trans ht'); subst this
+    obtain ⟨b, hb, hbw, hbo, hba⟩ := toEL_spec (srcAL t hw)
+    have : b = d := roundtrip_EL h hbw ⟨ho, ha⟩ ⟨hbo, hba⟩
+    rw [← this]; exact hb
+  · intro t ht
+    obtain ⟨t', ht', hw, ho, ha⟩ := toAM_spec (srcEL d h)
+    have : t = t' := Option.some.inj (ht.symm.trans ht'); subst this
+    obtain ⟨b, hb, hbw, hbo, hba⟩ := toEL_spec (srcAM t hw.1 hw.2 (by rw [ho]; exact h.1))
+    have : b = d := roundtrip_EL h hbw ⟨ho, ha⟩ ⟨hbo, hba⟩
+    rw [← this]; exact hb
+  · intro t ht
+    obtain ⟨t', ht', hw, ho, ha⟩ := toMX_spec (srcEL d h) (fits_of_toMX ht)
+    have : t = t' := Option.some.inj (ht.symm.trans ht'); subst this
+    obtain ⟨b, hb, hbw, hbo, hba⟩ := toEL_spec (srcMX t hw)
+    have : b = d := roundtrip_EL h hbw ⟨ho, ha⟩ ⟨hbo, hba⟩
+    rw [← this]; exact hb
+
+/-! ## (c), (d) rows and arcs -/
+
+theorem from_rows_al (rows : List (List Nat)) :
+    (RowsValid rows → Conv.AL.fromRows rows = some ⟨rows⟩ ∧ ((∀ r ∈ rows, SortedS r) → OkAL ⟨rows⟩)) ∧
+    (¬ RowsValid rows → Conv.AL.fromRows rows = none) :=
+  ⟨fun hv => ⟨(Conv.AL.fromRows_spec rows).1 hv, fun hs => Conv.AL.fromRows_wf hs hv⟩,
+   (Conv.AL.fromRows_spec rows).2⟩
+
+theorem from_rows_am (rows : List (List Nat)) :
+    (RowsValid rows → Conv.AM.fromRows rows = some ⟨enumRows rows⟩ ∧
+        ((∀ r ∈ rows, SortedS r) → OkAM ⟨enumRows rows⟩)) ∧
+    (¬ RowsValid rows → Conv.AM.fromRows rows = none) := by
+  refine ⟨fun hv => ⟨(Conv.AM.fromRows_spec rows).1 hv, fun hs => ?_⟩, (Conv.AM.fromRows_spec rows).2⟩
+  have := Conv.AM.fromRows_wf hs hv
+  refine ⟨this.1, this.2, ?_⟩
+  show 1 ≤ (enumRows rows).length
+  have : 0 < rows.length := List.length_pos_iff.mpr hv.1
+  simp only [enumRows, List.length_map, List.length_zipIdx]; omega
+
+theorem from_rows_wl (rows : List (List (Nat × Int))) :
+    (RowsValidW rows → Conv.WL.fromRows rows = some ⟨rows⟩ ∧ ((∀ r ∈ rows, SortedK r) → AdjListW.WF ⟨rows⟩)) ∧
+    (¬ RowsValidW rows → Conv.WL.fromRows rows = none) :=
+  ⟨fun hv => ⟨(Conv.WL.fromRows_spec rows).1 hv, fun hs => Conv.WL.fromRows_wf hs hv⟩,
+   (Conv.WL.fromRows_spec rows).2⟩
+
+theorem from_arcs (arcs : List (Nat × Nat)) :
+    (arcs ≠ [] → (∀ a ∈ arcs, a.1 ≠ a.2) → Fits (maxId arcs + 1) →
+        ∃ d, Conv.MX.fromArcs arcs = some d ∧ OkMX d ∧ Same (maxId arcs + 1) arcs d.order d.arcs) ∧
+    ((∀ a ∈ arcs, a.1 ≠ a.2) →
+        ∃ d, Conv.EL.fromArcs arcs = some d ∧ OkEL d ∧ Same (maxId arcs + 1) arcs d.order d.arcs) ∧
+    ((∃ a ∈ arcs, a.1 = a.2) → Conv.MX.fromArcs arcs = none ∧ Conv.EL.fromArcs arcs = none) ∧
+    (arcs ≠ [] → ∃ a ∈ arcs, a.1 = maxId arcs ∨ a.2 = maxId arcs) := by
+  refine ⟨?_, ?_, ?_, fun hne => maxId_attained hne⟩
+  · intro hne hnl hf
+    obtain ⟨d, hd, hw, ho, ha⟩ := Conv.MX.fromArcs_spec hne hnl hf
+    exact ⟨d, hd, ⟨hw, by rw [ho]; exact hf⟩, ho, ha⟩
+  · intro hnl
+    obtain ⟨d, hd, hw, ho, ha⟩ := Conv.EL.fromArcs_spec hnl
+    exact ⟨d, hd, hw, ho, ha⟩
+  · rintro ⟨a, ha, hl⟩
+    have : arcs.any (fun a => a.1 == a.2) = true := List.any_eq_true.mpr ⟨a, ha, by simp [hl]⟩
+    simp [Conv.MX.fromArcs, Conv.EL.fromArcs, this]
+
+/-! ## chains of conversions (what the `conv_chain` op of the driver replays) -/
+
+/-- validity of a digraph in whichever representation (weighted: every weight 1) -/
+def OkAny : Any → Prop
+  | .al d => OkAL d | .am d => OkAM d | .mx d => OkMX d | .el d => OkEL d | .wl d => OkWL1 d
+
+theorem convert_preserves (src : Any) (tag : String) (h : OkAny src) (hf : Fits src.order)
+    (r : Option Any) (hc : convert src tag = some r) :
+    ∃ nxt, r = some nxt ∧ OkAny nxt ∧ Same src.order src.arcs nxt.order nxt.arcs := by
+  have lift : ∀ {T : Type} (mk : T → Any) (ok : T → Prop) (ord : T → Nat) (arcs : T → List (Nat × Nat))
+      (res : Option T), (∃ t, res = some t ∧ ok t ∧ Same src.order src.arcs (ord t) (arcs t)) →
+      (∀ t, ok t → OkAny (mk t)) → (∀ t, (mk t).order = ord t) → (∀ t, (mk t).arcs = arcs t) →
+      ∃ nxt, res.map mk = some nxt ∧ OkAny nxt ∧ Same src.order src.arcs nxt.order nxt.arcs := by
+    intro T mk ok ord arcs res ⟨t, ht, hok, hs⟩ h1 h2 h3
+    exact ⟨mk t, by rw [ht]; rfl, h1 t hok, by rw [h2, h3]; exact hs⟩
+  unfold convert at hc
+  split at hc <;> first
+    | (cases hc; rename_i d
+       first
+        | exact lift Any.am OkAM AdjMap.order AdjMap.arcs _ (converts_src (srcAL d h)).2.1 (fun _ h => h) (fun _ => rfl) (fun _ => rfl)
+        | exact lift Any.mx OkMX AdjMatrix.order AdjMatrix.arcs _ ((converts_src (srcAL d h)).2.2.1 hf) (fun _ h => h) (fun _ => rfl) (fun _ => rfl)
+        | exact lift Any.el OkEL EdgeList.order EdgeList.arcs _ (converts_src (srcAL d h)).2.2.2.1 (fun _ h => h) (fun _ => rfl) (fun _ => rfl)
+        | exact lift Any.wl OkWL1 AdjListW.order AdjListW.arcs _ (converts_src (srcAL d h)).2.2.2.2 (fun _ h => h) (fun _ => rfl) (fun _ => rfl)
+        | exact lift Any.al OkAL AdjList.order AdjList.arcs _ (converts_src (srcAM d h.1 h.2.1 h.2.2)).1 (fun _ h => h) (fun _ => rfl) (fun _ => rfl)
+        | exact lift Any.mx OkMX AdjMatrix.order AdjMatrix.arcs _ ((converts_src (srcAM d h.1 h.2.1 h.2.2)).2.2.1 hf) (fun _ h => h) (fun _ => rfl) (fun _ => rfl)
+        | exact lift Any.el OkEL EdgeList.order EdgeList.arcs _ (converts_src (srcAM d h.1 h.2.1 h.2.2)).2.2.2.1 (fun _ h => h) (fun _ => rfl) (fun _ => rfl)
+        | exact lift Any.wl OkWL1 AdjListW.order AdjListW.arcs _ (converts_src (srcAM d h.1 h.2.1 h.2.2)).2.2.2.2 (fun _ h => h) (fun _ => rfl) (fun _ => rfl)
+        | exact lift Any.al OkAL AdjList.order AdjList.arcs _ (converts_src (srcMX d h.1)).1 (fun _ h => h) (fun _ => rfl) (fun _ => rfl)
+        | exact lift Any.am OkAM AdjMap.order AdjMap.arcs _ (converts_src (srcMX d h.1)).2.1 (fun _ h => h) (fun _ => rfl) (fun _ => rfl)
+        | exact lift Any.el OkEL EdgeList.order EdgeList.arcs _ (converts_src (srcMX d h.1)).2.2.2.1 (fun _ h => h) (fun _ => rfl) (fun _ => rfl)
+        | exact lift Any.wl OkWL1 AdjListW.order AdjListW.arcs _ (converts_src (srcMX d h.1)).2.2.2.2 (fun _ h => h) (fun _ => rfl) (fun _ => rfl)
+        | exact lift Any.al OkAL AdjList.order AdjList.arcs _ (converts_src (srcEL d h)).1 (fun _ h => h) (fun _ => rfl) (fun _ => rfl)
+        | exact lift Any.am OkAM AdjMap.order AdjMap.arcs _ (converts_src (srcEL d h)).2.1 (fun _ h => h) (fun _ => rfl) (fun _ => rfl)
+        | exact lift Any.mx OkMX AdjMatrix.order AdjMatrix.arcs _ ((converts_src (srcEL d h)).2.2.1 hf) (fun _ h => h) (fun _ => rfl) (fun _ => rfl)
+        | exact lift Any.wl OkWL1 AdjListW.order AdjListW.arcs _ (converts_src (srcEL d h)).2.2.2.2 (fun _ h => h) (fun _ => rfl) (fun _ => rfl))
+    | cases hc
+
+/-- **Every chain of conversions** starting from a valid contiguous digraph: no step panics and
+every digraph along the chain is valid with the order and arc set of the first one. -/
+theorem chain_preserves (tags : List String) : ∀ (src : Any), OkAny src → Fits src.order →
+    ∀ rs, runChain src tags = some rs →
+      ∀ r ∈ rs, ∃ d, r = some d ∧ OkAny d ∧ Same src.order src.arcs d.order d.arcs := by
+  induction tags with
+  | nil => intro src _ _ rs h r hr; cases h; cases hr
+  | cons tag rest ih =>
+    intro src hok hf rs h r hr
+    unfold runChain at h
+    split at h
+    · cases h
+    · rename_i hc
+      obtain ⟨nxt, hn, _, _⟩ := convert_preserves src tag hok hf _ hc
+      cases hn
+    · rename_i nxt hc
+      obtain ⟨nxt', hn, hok', hs⟩ := convert_preserves src tag hok hf _ hc
+      have e : nxt = nxt' := Option.some.inj hn
+      subst e
+      cases hrest : runChain nxt rest with
+      | none => rw [hrest] at h; cases h
+      | some rs' =>
+        rw [hrest] at h
+        cases h
+        rcases List.mem_cons.mp hr with rfl | hr'
+        · exact ⟨nxt, rfl, hok', hs⟩
+        · have hf' : Fits nxt.order := by rw [hs.1]; exact hf
+          obtain ⟨d, hd, hdok, hds⟩ := ih nxt hok' hf' rs' hrest r hr'
+          refine ⟨d, hd, hdok, ?_⟩
+          exact ⟨by rw [hds.1, hs.1], fun u v => by rw [hds.2, hs.2]⟩
+
+/-- **C16, full statement.** -/
+theorem statement_holds : Statement :=
+  ⟨converts_from_al, converts_from_am, converts_from_mx, converts_from_el,
+   roundtrip_al, roundtrip_am, roundtrip_mx, roundtrip_el,
+   from_rows_al, from_rows_am, from_rows_wl, from_arcs, by decide⟩
+
+/-! ## Non-vacuity -/
+
+/-- a concrete valid source: the directed triangle plus a chord, as an adjacency list -/
+def exAL : AdjList := ⟨[[1, 2], [2], [0]]⟩
+example : OkAL exAL := by
+  refine ⟨by decide, ?_⟩
+  intro u row h
+  have hu : u < 3 := by
+    have := List.getElem?_eq_some_iff.mp h; obtain ⟨hlt, _⟩ := this; exact hlt
+  match u, hu with
+  | 0, _ => cases h; exact ⟨by simp [SortedS], by decide⟩
+  | 1, _ => cases h; exact ⟨by simp [SortedS], by decide⟩
+  | 2, _ => cases h; exact ⟨by simp [SortedS], by decide⟩
+example : (alToMX exAL).map (·.arcs) = some [(0,1),(0,2),(1,2),(2,0)] := by decide
+example : (alToWL exAL).map (·.arcsWeighted) = some [(0,1,1),(0,2,1),(1,2,1),(2,0,1)] := by decide
+example : (alToEL exAL).bind elToAL = some exAL := by decide
+example : ((runChain (.al exAL) ["am", "mx", "el", "al", "wu"]).map (·.map (·.map (·.arcs)))) =
+    some (List.replicate 5 (some [(0,1),(0,2),(1,2),(2,0)])) := by decide
+example : Conv.AL.fromRows [[1], [1]] = none := by decide       -- self-loop
+example : Conv.AM.fromRows [[1], [2]] = none := by decide       -- head out of range
+example : (Conv.EL.fromArcs [(3,1),(1,3),(3,1)]).map (fun d => (d.order, d.arcs)) = some (4, [(1,3),(3,1)]) := by decide
+example : RowsValid [[1, 2], [2], [0]] := by
+  refine ⟨by simp, ?_⟩
+  intro u row h
+  have hu : u < 3 := by
+    have := List.getElem?_eq_some_iff.mp h; obtain ⟨hlt, _⟩ := this; exact hlt
+  match u, hu with
+  | 0, _ => cases h; decide
+  | 1, _ => cases h; decide
+  | 2, _ => cases h; decide
+
+end GraafVerif.C16
